@@ -534,3 +534,35 @@ Definition c04_check (x : c04_case * c04_obs) : bool :=
   let '(stuck, so) := snd x in
   list_eqb Nat.eqb (connect_stuck cs paps) stuck
   && match stuck with [] => sched_check (sc, so) | _ => true end.
+
+(** * Life cycle of a component (C03)
+
+    The calls a component receives from [Composition.__init__], [connect], [run] and the finalisation:
+    initialize, [nconn] connect calls (one per round of the connect loop until it is connected), validate,
+    one update per update event of the run, finalize. *)
+Inductive call : Type := KI | KC | KV | KU | KF.
+
+Definition call_eqb (a b : call) : bool :=
+  match a, b with KI, KI | KC, KC | KV, KV | KU, KU | KF, KF => true | _, _ => false end.
+
+Definition lifecycle (nconn nupd : nat) : list call :=
+  KI :: repeat KC nconn ++ KV :: repeat KU nupd ++ [KF].
+
+Definition count_call (c : call) (l : list call) : nat := length (filter (call_eqb c) l).
+
+(** C03 correspondence: the scheduler observation, the observed call sequence of every component, and how often
+    each adapter was finalized *)
+Definition c03_obs : Type := sched_obs * list (list call) * list nat.
+Definition c03_check (x : sched_case * c03_obs) : bool :=
+  let '(so, calls, fins) := snd x in
+  let '(cs, endt, fuel) := fst x in
+  sched_check (fst x, so) &&
+  match run fuel cs endt with
+  | (OOk, st, _) =>
+      list_eqb (list_eqb call_eqb) calls
+        (map (fun k => lifecycle (count_call KC (nth k calls [])) (if is_time cs k then s_cnt st k else O))
+             (seq O (length cs)))
+      && forallb (fun l => Nat.leb 1 (count_call KC l)) calls
+      && forallb (Nat.eqb 1) fins
+  | _ => true
+  end.
